@@ -241,10 +241,12 @@ func (s *scanner) skipToEndOfComment() {
 	for {
 		if ch := s.read(); ch == '*' {
 			for {
-				if ch := s.read(); ch == '/' {
+				if ch := s.read(); ch == '/' || ch == eof {
 					return
 				}
 			}
+		} else if ch == eof {
+			return
 		}
 	}
 }
